@@ -21,7 +21,11 @@
 #include "/repo/lib/loop.c"
 #include "/repo/lib/loop_job.c"
 
+#ifdef FAMILY_B
+#define ITERS 10
+#else
 #define ITERS 7
+#endif
 #define MAXDISP 64
 
 static struct qb_loop L;
@@ -46,10 +50,45 @@ static int32_t job_poll_wrap(struct qb_loop_source *s, int32_t ms)
 	if (iter < ITERS) for (int p = 0; p < 3; p++) pending_at_start[iter][p] = level_pending(p);
 	return realjobs->poll(realjobs, ms);          /* the real get_more_jobs */
 }
+/* "always-ready descriptors": 5 items per level that the fd source re-queues every iteration (family B) */
+#define NFD 5
+static struct qb_loop_item fditem[3][NFD];
+static int fd_queued[3][NFD];
+static int fds_ready[3];
+static int inject_level = -1, inject_iter = 1, injected_ran_iter = -1, injected;
+static void job_cb(void *data);
+/* ONE dispatch function for every item: with two address-taken candidates CBMC case-splits each indirect call
+ * (measured: symbolic execution then does not finish); jobs are handed to the real job_dispatch by a direct call */
+static void fd_dispatch(struct qb_loop_item *item, enum qb_loop_priority p)
+{
+	int mine = 0;
+	for (int i = 0; i < NFD; i++) if (item == &fditem[p][i]) { fd_queued[p][i] = 0; mine = 1; }
+	if (mine) { if (iter < ITERS) disp_count[iter][p]++; }
+	else job_dispatch(item, p);
+}
+static void injected_cb(void *data) { (void)data; injected_ran_iter = iter; }
 static int32_t fd_poll(struct qb_loop_source *s, int32_t ms)
 {
-	(void)s; (void)ms;
-	return 0;
+	(void)ms;
+	int n = 0;
+	for (int p = 0; p < 3; p++) {
+		if (!fds_ready[p]) continue;
+		for (int i = 0; i < NFD; i++) {
+			if (!fd_queued[p][i]) {
+				fditem[p][i].source = s;
+				fditem[p][i].type = QB_LOOP_FD;
+				qb_loop_level_item_add(&L.level[p], &fditem[p][i]);
+				fd_queued[p][i] = 1;
+				n++;
+			}
+		}
+	}
+	if (inject_level >= 0 && !injected && iter == inject_iter) {
+		/* a job queued from outside while the loop is running */
+		PROP(qb_loop_job_add(&L, (enum qb_loop_priority)inject_level, NULL, injected_cb) == 0, "job_add while running");
+		injected = 1;
+	}
+	return n;
 }
 static void job_cb(void *data);
 static void add_job(int p)
@@ -80,6 +119,36 @@ static int32_t job_poll_count(struct qb_loop_source *s, int32_t ms)
 #ifndef SC_BASE
 #define SC_BASE 0
 #endif
+#ifdef FAMILY_B
+/* family B: s = fdmask (3 bits: which levels have 5 always-ready descriptors) * 3 + level of the injected job */
+static void harness_scenario(int s)
+{
+	PROP(s < 24, "harness: scenario index in range");
+	for (int p = 0; p < 3; p++) {
+		L.level[p].priority = p; L.level[p].to_process = 4; L.level[p].todo = 0; L.level[p].l = &L;
+		qb_list_init(&L.level[p].job_head); qb_list_init(&L.level[p].wait_head);
+		fds_ready[p] = ((s / 3) >> p) & 1;
+	}
+	inject_level = s % 3;
+	/* job source built by hand (what qb_loop_jobs_create does) so that job_dispatch's address is never taken */
+	static struct qb_loop_source handjobs;
+	handjobs.l = &L; handjobs.poll = get_more_jobs; handjobs.dispatch_and_take_back = fd_dispatch;
+	realjobs = &handjobs;
+	jobwrap.l = &L; jobwrap.poll = job_poll_count; jobwrap.dispatch_and_take_back = fd_dispatch;
+	fdsrc.l = &L; fdsrc.poll = fd_poll; fdsrc.dispatch_and_take_back = fd_dispatch;
+	L.fd_source = &fdsrc;
+	L.job_source = &jobwrap;
+	L.timer_source = NULL; L.signal_source = NULL;
+	qb_loop_run(&L);
+	PROP(iter == ITERS, "loop ran the planned number of iterations and stopped on request");
+	PROP(injected, "the job was queued");
+	/* queued during iteration 1; behind at most 5 ready descriptors of its own level (to_process 4 => 2 turns of
+	 * that level, a level gets a turn at least every 3rd iteration) => dispatched by iteration 1 + 1 + 6 */
+	PROP(injected_ran_iter >= 0 && injected_ran_iter <= inject_iter + 7, "a queued job is dispatched within a bounded number of iterations whatever the other levels do");
+	for (int k = 0; k < ITERS; k++) for (int p = 0; p < 3; p++) PROP(disp_count[k][p] <= 4, "at most to_process items of a level per iteration");
+	WITNESS("scenario executed");
+}
+#else
 static void harness_scenario(int s0)
 {
 	int s = s0 + SC_BASE;
@@ -113,16 +182,18 @@ static void harness_scenario(int s0)
 		for (int p = 0; p < 3; p++)
 			PROP(disp_count[k][p] <= 4, "at most to_process items of a level per iteration");
 	for (int k = 0; k + 3 <= ITERS; k++) {
-		int c[3];
+		int c[3], opp[3];
 		for (int p = 0; p < 3; p++) {
 			c[p] = disp_count[k][p] + disp_count[k + 1][p] + disp_count[k + 2][p];
+			/* dispatch opportunities: iterations of the window in which the level was served */
+			opp[p] = (disp_count[k][p] > 0) + (disp_count[k + 1][p] > 0) + (disp_count[k + 2][p] > 0);
 			if (pending_at_start[k][p])
 				PROP(c[p] >= 1, "a level with pending work dispatches at least one item in any three consecutive iterations");
 		}
 		/* all three saturated for the whole window: opportunities HIGH >= MED >= LOW */
 		if (readd[0] && readd[1] && readd[2] && pending_at_start[k][0] && pending_at_start[k][1] && pending_at_start[k][2]) {
-			PROP(c[QB_LOOP_HIGH] >= c[QB_LOOP_MED] && c[QB_LOOP_MED] >= c[QB_LOOP_LOW],
-			     "higher priorities get at least as many dispatches as lower ones over the same span");
+			PROP(opp[QB_LOOP_HIGH] >= opp[QB_LOOP_MED] && opp[QB_LOOP_MED] >= opp[QB_LOOP_LOW],
+			     "higher priorities get at least as many dispatch opportunities as lower ones over the same span");
 		}
 	}
 	/* a non-re-adding backlog drains completely */
@@ -135,3 +206,4 @@ static void harness_scenario(int s0)
 	}
 	WITNESS("scenario executed");
 }
+#endif
